@@ -6,12 +6,13 @@ content extracted from the raw lists must equal the model (so a write disturbs n
 must leave the raw snapshot untouched, references must alias the stored box, synthesised defaults must
 be fresh, and position lookups / legal start_pos shortcuts must not change any answer.  A wrapper on
 Fiber._coord2pos checks, on every call the workload causes, that the result is the insertion index in
-the raw coordinate list.
+the raw coordinate list.  The trees are built through several public constructor forms, and part of the
+histories runs while a metrics-collection session is active: neither may change any answer.
 """
 import bisect
 import random
 
-from fibertree import Fiber, Payload, Tensor
+from fibertree import Fiber, Metrics, Payload, Tensor
 from fibertree.core.coord_payload import CoordPayload
 
 from fvmon import gen
@@ -19,8 +20,10 @@ from fvmon.observe import content, snap, unbox, RC, WF
 
 SPEC = {
     "anchors": ["fibertree.core.fiber:Fiber.getPayload", "fibertree.core.fiber:Fiber.getPayloadRef", "fibertree.core.fiber:Fiber.getPosition", "fibertree.core.fiber:Fiber.getPositionRef", "fibertree.core.fiber:Fiber._coordExists", "fibertree.core.fiber:Fiber._createDefault", "fibertree.core.fiber:Fiber._instantiateDefault", "fibertree.core.payload:Payload.__iadd__", "fibertree.core.payload:Payload.__ilshift__", "fibertree.core.tensor:Tensor.getPayload", "fibertree.core.tensor:Tensor.getPayloadRef", "fibertree.core.fiber:Fiber.__getitem__", "fibertree.core.fiber:Fiber.__setitem__", "fibertree.core.coord_payload:CoordPayload.__ilshift__", "fibertree.core.coord_payload:CoordPayload.__iadd__"],
-    "rule": ("case = tensor of depth 0-3 (or a free depth-1 fiber), canonical or holding explicit defaults / empty "
-             "sub-fibers, default 0 or 7, + a history of 10-30 (quick) / 10-100 (thorough) accesses over {getPayload "
+    "rule": ("case = tensor of depth 0-3 (or a free depth-1 / depth-2 fiber), canonical or holding explicit defaults / empty "
+             "sub-fibers, default 0, 7, 0.5 or 2.5, leaf fibers built through one of the public constructor forms "
+             "{coordinates + payloads, list of (coordinate, payload) pairs, coordinates only + one `initial` value for "
+             "all elements}, + a history of 10-30 (quick) / 10-100 (thorough) accesses over {getPayload "
              "(full / partial point, allocate on/off, caller default), getPayloadRef (full / partial) followed by "
              "<<= / += / *= / -= (right-hand side a scalar or a boxed value) through the handle or nothing, writes "
              "through handles obtained earlier, sub-fiber assignment at a prefix, getPosition, getPositionRef, f[pos], "
@@ -29,7 +32,10 @@ SPEC = {
              "of the same fiber / another leaf fiber of the tree / a separate fiber; optionally followed by an in-place "
              "update at the source or the target point, which must leave the other one alone), every legal start_pos "
              "(plain or boxed) for one-coordinate accesses}, through Tensor.* and Fiber.* entry points.  The separate "
-             "source fiber has its own map and is compared after every step.  Non-trivial = at least one "
+             "source fiber has its own map and is compared after every step.  In 40% of the cases a window of the "
+             "history (half of them: all of it) runs while a metrics-collection session is active (Metrics.beginCollect, "
+             "the ranks of the trees registered); every answer must be the same as outside a session (verdict keys of "
+             "those steps carry the suffix :metrics-session).  Non-trivial = at least one "
              "write through a handle and one later read of a written point; distinct = distinct case."),
     "shards": {"quick": 16, "thorough": 16},
     "min_counts": {"quick": {"evaluations": 300, "reads_checked": 3000, "refs_checked": 1500, "model_compares": 5000,
@@ -37,12 +43,16 @@ SPEC = {
                              "handles_checked": 2000, "handle_form_handle": 800, "handle_form_statement": 800,
                              "handle_pos_getPosition": 500, "handle_pos_getPositionRef": 800, "handle_pos_raw": 250,
                              "handle_rhs_payload": 300, "handle_rhs_element_same": 150, "handle_rhs_element_tree": 120,
-                             "handle_rhs_element_ext": 300, "handle_independence_checked": 300}},
+                             "handle_rhs_element_ext": 300, "handle_independence_checked": 300,
+                             "built_payloads": 400, "built_pairs": 150, "built_initial": 300,
+                             "metrics_session_steps": 4000, "metrics_session_writes": 1000, "metrics_session_stale_writes": 80}},
     "assumptions": [
         "legal start_pos: None, or p with 0 <= p < len(coords) and coords[p] <= coord; single-coordinate accesses only (as the API asserts)",
         "saved-position statistics are not part of the tree and are not compared",
         "an element (CoordPayload) is used as a right-hand side only for writes through position handles f[pos]; Payload.__ilshift__ and the Payload arithmetic are documented for 'Payload or scalar' operands only",
         "position handles are taken at the leaf level (the payload of an interior element is a sub-fiber; sub-fiber assignment is exercised by the prefix assignment)",
+        "metrics collection is an ambient mode the statement does not mention, so point access must answer the same inside a session; the driver registers the rank names of the trees (Metrics.registerRank, as a loop nest does) because a reference taken during a session reports its use under the rank name and Metrics.addUse asserts that name is known; no traces are requested and the collected counts are not compared",
+        "the `initial` constructor form gives every element the same value, so those leaf fibers start uniform (possibly all explicit defaults); interior fibers are always built from coordinates + sub-fibers (one `initial` sub-fiber object replicated over several coordinates would be one shared sub-tree by construction)",
         "free (unowned) fibers at depth 1, and at depth 2 only as canonical trees with a non-empty root (an unowned empty interior fiber cannot know its payload type)",
     ],
 }
@@ -91,12 +101,42 @@ def generate(rng, tier, shard, nshards, mon):
             spec = gen.canonical_spec(spec, default)
             if not spec:
                 spec = [[rng.randrange(ext[0]), [[rng.randrange(ext[1]), 5 if default != 5 else 6]]]]
-        init = {"depth": depth, "ext": ext, "default": default, "spec": spec, "free": free,
+        xspec = gen.rand_leaf_spec(rng, 5, 0.7, 0.15, default)
+        # which public constructor form builds the leaf fibers: coordinates + payloads, a list of (coordinate,
+        # payload) pairs, or coordinates only + one `initial` value for every element (the spec is made uniform
+        # per leaf fiber for that; the value may be the default, giving explicit defaults)
+        build = rng.choice(["payloads", "payloads", "payloads", "pairs", "initial", "initial"])
+        if build == "initial":
+            canonical = free and depth == 2
+            spec = _uniform_leaves(rng, spec, depth, default, canonical)
+            xspec = _uniform_leaves(rng, xspec, 1, default, False)
+        init = {"depth": depth, "ext": ext, "default": default, "spec": spec, "free": free, "build": build,
                 "shape": [e + 2 for e in ext] if rng.random() < 0.7 else None, "root0": rng.choice([0, 3]),
                 # a separate free fiber whose elements serve as right-hand sides of assignments / updates
-                "xspec": gen.rand_leaf_spec(rng, 5, 0.7, 0.15, default)}
-        ops = [_gen_op(rng, init) for _ in range(rng.randint(lo, hi))]
-        yield {"init": init, "ops": ops}
+                "xspec": xspec}
+        nops = rng.randint(lo, hi)
+        ops = [_gen_op(rng, init) for _ in range(nops)]
+        # the part [a, b) of the history that runs while a metrics-collection session is active (None: no session)
+        r = rng.random()
+        if r < 0.6:
+            window = None
+        elif r < 0.8:
+            window = [0, nops]
+        else:
+            a = rng.randrange(nops)
+            window = [a, rng.randint(a + 1, nops)]
+        yield {"init": init, "ops": ops, "metrics": window}
+
+
+def _uniform_leaves(rng, spec, depth, default, canonical):
+    """The same tree shape, every non-empty leaf fiber holding one value at all its coordinates."""
+    if depth <= 1:
+        if not spec:
+            return spec
+        vals = [v for v in gen.VALUES if v != default] + ([] if canonical else [default])
+        v = rng.choice(vals)
+        return [[c, v] for c, _ in spec]
+    return [[c, _uniform_leaves(rng, sub, depth - 1, default, canonical)] for c, sub in spec]
 
 
 def _gen_op(rng, init):
@@ -137,11 +177,28 @@ def _build(init):
         t = Tensor(rank_ids=[])
         t.getPayloadRef().v = init["root0"]
         return t, None
+    build = init.get("build", "payloads")
     if init["free"]:
-        kw = {"shape": init["shape"][0]} if init["shape"] else {}
-        return None, gen.fiber_from_spec(init["spec"], d, **kw)
-    t = gen.tensor_from_spec(init["spec"], gen.rank_ids_for(init["depth"]), shape=init["shape"], default=d)
+        return None, _fiber_from_spec(init["spec"], d, init["depth"], build, init["shape"][0] if init["shape"] else None)
+    f = _fiber_from_spec(init["spec"], d, init["depth"], build)
+    t = Tensor.fromFiber(rank_ids=list(gen.rank_ids_for(init["depth"])), fiber=f,
+                         shape=list(init["shape"]) if init["shape"] else None, default=d)
     return t, t.getRoot()
+
+
+def _fiber_from_spec(ts, d, depth, build, shape=None):
+    """Build a free fiber tree from a spec through the public constructors; `build` selects the form used for
+    the leaf fibers (interior fibers always get coordinates + sub-fibers)."""
+    kw = {} if shape is None else {"shape": shape}
+    coords = [gen.tup(c) for c, _ in ts]
+    if depth > 1:
+        return Fiber(coords, [_fiber_from_spec(p, d, depth - 1, build) for _, p in ts], default=d, **kw)
+    vals = [p for _, p in ts]
+    if build == "initial" and ts and all(v == vals[0] for v in vals):
+        return Fiber(coords, initial=vals[0], default=d, **kw)
+    if build == "pairs" and ts:
+        return Fiber.fromCoordPayloadList([(c, v) for c, v in zip(coords, vals)], default=d, **kw)
+    return Fiber(coords, vals, default=d, **kw)
 
 
 def _resolve(root, path):
@@ -187,12 +244,70 @@ def _model_act(old, act, v, d):
     return {"none": old, "set": v, "add": old + v, "mul": old * v, "sub": old - v, "default": d}[act]
 
 
+class _Tagged:
+    """The shard monitor, with the verdict keys of steps executed inside a metrics-collection session marked."""
+
+    def __init__(self, mon):
+        self._mon = mon
+        self.tag = ""
+        self.count, self.nontrivial, self.state = mon.count, mon.nontrivial, mon.state
+
+    def check(self, cond, key, msg, **extra):
+        return self._mon.check(cond, key + self.tag, msg + (" [metrics collection active]" if self.tag else ""), **extra)
+
+    def violation(self, key, msg, **extra):
+        return self._mon.violation(key + self.tag, msg + (" [metrics collection active]" if self.tag else ""), **extra)
+
+
+def _rank_names(*fibers):
+    """Rank names the fibers of these trees report uses under (read from the attributes, no search involved)."""
+    out, todo = [], list(fibers)
+    while todo:
+        f = todo.pop()
+        if isinstance(f, Fiber):
+            name = f.getRankAttrs().getId()
+            if name not in out:
+                out.append(name)
+            todo.extend(p for p in f.payloads if isinstance(p, Fiber))
+    return out
+
+
+def _session(mon, window, i, names):
+    """Open / close the metrics-collection session at the borders of the window; the ranks of the trees are
+    registered the way a loop nest registers them, so that accesses may report their uses."""
+    if window is None:
+        return
+    if i == window[0]:
+        Metrics.beginCollect()
+        for name in names:
+            Metrics.registerRank(name)
+        mon.tag = ":metrics-session"
+    elif i == window[1]:
+        _end_session(mon)
+
+
+def _end_session(mon):
+    if mon.tag:
+        mon.tag = ""
+        Metrics.endCollect()
+
+
 def run_case(case, mon):
     _install_contract(mon)
+    mon = _Tagged(mon)
+    try:
+        _run_case(case, mon)
+    finally:
+        _end_session(mon)
+
+
+def _run_case(case, mon):
     init = case["init"]
     d = init["default"]
     depth = init["depth"]
+    window = case.get("metrics")
     t, root = _build(init)
+    mon.count(f"built_{init.get('build', 'payloads')}")
     subject = t if t is not None else root
     if depth == 0:
         _run_rank0(case, mon, t)
@@ -201,7 +316,8 @@ def run_case(case, mon):
     held = []           # (point, ref)   ref: the stored Payload, or a position handle f[pos] aliasing it
     wrote, read_written = set(), False
     # the separate source fiber (elements of it are assigned into the tree; it must never change unless written)
-    xf = gen.fiber_from_spec(init.get("xspec", []), d)
+    xf = _fiber_from_spec(init.get("xspec", []), d, 1, init.get("build", "payloads"))
+    names = (list(t.getRankIds()) if t is not None else []) + _rank_names(root, xf)
     xmodel = {p_[0]: v_ for p_, v_ in content(xf, d).items()}
 
     def entry(op):
@@ -216,6 +332,9 @@ def run_case(case, mon):
                          f"after {label}: the separate fiber whose element was the right-hand side holds {gx}, expected {xmodel}") and ok
 
     for i, op in enumerate(case["ops"]):
+        _session(mon, window, i, names)
+        if mon.tag:
+            mon.count("metrics_session_steps")
         k = op["op"]
         pt = tuple(op["pt"])
         before = snap(subject)
@@ -282,6 +401,8 @@ def run_case(case, mon):
                     model.pop(pt, None)
                 if op["act"] != "none":
                     wrote.add(pt)
+                    if mon.tag:
+                        mon.count("metrics_session_writes")
                 label = f"{k}:{op['act']}"
                 if op["hold"]:
                     held.append((pt, ref))
@@ -311,6 +432,9 @@ def run_case(case, mon):
                 else:
                     model.pop(hp, None)
                 wrote.add(hp)
+                if mon.tag:
+                    mon.count("metrics_session_writes")
+                    mon.count("metrics_session_stale_writes")
                 label = f"stale:{act}"
                 rd = entry(op).getPayload(*hp)
                 mon.check(unbox(rd) == new, "ref:stale:write-not-visible", f"write through an older handle at {hp} not visible: read {rd!r}, expected {new!r}")
@@ -527,6 +651,8 @@ def run_case(case, mon):
                 else:
                     model.pop(tp, None)
                 wrote.add(tp)
+                if mon.tag:
+                    mon.count("metrics_session_writes")
                 rd = entry(op).getPayload(*tp)
                 mon.check(unbox(rd) == new, f"handle:{form}:write-not-visible",
                           f"after {act} of a {rhs_kind} through {'h = f[pos]' if form == 'handle' else 'f[pos] OP= ...'} at {tp}, read gives {rd!r}, expected {new!r}")
@@ -585,7 +711,10 @@ def _legal_sp(f, coord, r):
 
 def _run_rank0(case, mon, t):
     val = case["init"]["root0"]
-    for op in case["ops"]:
+    for i, op in enumerate(case["ops"]):
+        _session(mon, case.get("metrics"), i, [])
+        if mon.tag:
+            mon.count("metrics_session_steps")
         if op["op"] in ("ref", "stale", "ref_sp"):
             ref = t.getPayloadRef()
             mon.count("refs_checked")
